@@ -72,7 +72,11 @@ def main():
             result["builds"] = rc_b == 0
             os.remove(demo_dst)
             rc_t, out_t = sh("go test -vet=off -count=1 -timeout 600s ./...", wt, timeout=1200)
-            if rc_t != 0 and "examples/clock" in out_t:
+            # known flaky tests of the repository itself (a timing test in examples/clock,
+            # a fixed TCP port in bus/net when several suites run at once): run again
+            for _ in range(2):
+                if rc_t == 0:
+                    break
                 rc_t, out_t = sh("go test -vet=off -count=1 -timeout 600s ./...", wt, timeout=1200)
             result["suite_passes"] = rc_t == 0
             if rc_t != 0:
